@@ -1,6 +1,10 @@
 package syncx
 
-import "sync"
+import (
+	"sync"
+
+	"github.com/zeromicro/go-zero/internal/verifhook"
+)
 
 type (
 	// LockedCalls makes sure the calls with the same key to be called sequentially.
@@ -47,9 +51,11 @@ func (lg *lockedGroup) makeCall(key string, fn func() (any, error)) (any, error)
 	defer func() {
 		// delete key first, done later. can't reverse the order, because if reverse,
 		// another Do call might wg.Wait() without get notified with wg.Done()
+		verifhook.At("locked.beforeDelete", key)
 		lg.mu.Lock()
 		delete(lg.m, key)
 		lg.mu.Unlock()
+		verifhook.At("locked.beforeDone", key)
 		wg.Done()
 	}()
 
